@@ -120,25 +120,41 @@ def _signature(fn, where, gaps):
 
 
 # ------------------------------------------------------------------ the code the hand model was written from
-READ_FILE = """
+_READ_FILE = """
 if already_included is None:
     already_included = []
+%(MARK)s
 if not os.path.isfile(nml2_file_name):
     sys.exit()
 this_file = os.path.abspath(nml2_file_name)
 if this_file not in already_included:
     already_included.append(this_file)
-return _read_neuroml2(nml2_file_name, include_includes=include_includes, verbose=verbose,
-                      already_included=already_included, print_method=print_method, optimized=optimized)
+%(CALL)s
 """
+_CALL_FILE = """_read_neuroml2(nml2_file_name, include_includes=include_includes, verbose=verbose,
+                      already_included=already_included, print_method=print_method, optimized=optimized)"""
 
-READ_STRING = """
+_READ_STRING = """
 if already_included is None:
     already_included = []
-return _read_neuroml2(nml2_string, include_includes=include_includes, verbose=verbose,
-                      already_included=already_included, print_method=print_method, optimized=optimized,
-                      base_path=base_path)
+%(MARK)s
+%(CALL)s
 """
+_CALL_STRING = """_read_neuroml2(nml2_string, include_includes=include_includes, verbose=verbose,
+                      already_included=already_included, print_method=print_method, optimized=optimized,
+                      base_path=base_path)"""
+# the two shapes of an entry point: "plain" (marks made during a failed read stay in the caller's list) and
+# "restores" (fixes/C08-already-included-restored.patch: the length of the list is recorded at entry and everything
+# appended since is deleted again when the read raises - BaseException, so sys.exit() counts - before re-raising)
+_RESTORE = """try:
+    return %s
+except BaseException:
+    del already_included[n_marked:]
+    raise"""
+READ_FILE = {"plain": _READ_FILE % {"MARK": "", "CALL": "return " + _CALL_FILE},
+             "restores": _READ_FILE % {"MARK": "n_marked = len(already_included)", "CALL": _RESTORE % _CALL_FILE}}
+READ_STRING = {"plain": _READ_STRING % {"MARK": "", "CALL": "return " + _CALL_STRING},
+               "restores": _READ_STRING % {"MARK": "n_marked = len(already_included)", "CALL": _RESTORE % _CALL_STRING}}
 
 _READ = """
 if already_included is None:
@@ -373,8 +389,16 @@ def analyse(repo):
         return None, "false", gaps
     for q in ("read_neuroml2_file", "read_neuroml2_string", "_read_neuroml2"):
         _signature(fns[q], q, gaps)
-    _match(fns["read_neuroml2_file"], {"": READ_FILE}, "read_neuroml2_file", gaps, lt)
-    _match(fns["read_neuroml2_string"], {"": READ_STRING}, "read_neuroml2_string", gaps, lt)
+    global LAST_RESTORES
+    LAST_RESTORES = None
+    rf, _ = _match(fns["read_neuroml2_file"], READ_FILE, "read_neuroml2_file", gaps, lt)
+    rs, _ = _match(fns["read_neuroml2_string"], READ_STRING, "read_neuroml2_string", gaps, lt)
+    if rf and rs:
+        if rf == rs:
+            LAST_RESTORES = (rf == "restores")
+        else:
+            gaps.append("read_neuroml2_file is of the `%s` shape but read_neuroml2_string of the `%s` shape "
+                        "(marks of a failed read taken back or not)" % (rf, rs))
     loop, _ = _match(fns["_read_neuroml2"], READ, "_read_neuroml2", gaps, lt)
     sites = _hdf5_sites(lt, pt, gaps)
     sh = None
@@ -393,6 +417,7 @@ def analyse(repo):
     return sh, lean, gaps
 
 
+LAST_RESTORES = None      # do the two entry points take back the marks of a failed read? (None: refused)
 LAST_TEST_SRC = "?"       # the merge test of the last `analyse`, normalised, as Python text (for the doc comment)
 
 
@@ -414,8 +439,13 @@ def genSameId (c entry : Comp) : Bool := %s
     `read_neuroml2_string` (true) or does the HDF5 parser start a list of its own (false)? -/
 def sh : Bool := %s
 
+/-- do `read_neuroml2_file` / `read_neuroml2_string` delete the marks made during a FAILED read from the caller's
+    `already_included` list before re-raising (`n_marked = len(already_included)` … `except BaseException:
+    del already_included[n_marked:]; raise`: true) or do the marks stay (false)? -/
+def restoresMarks : Bool := %s
+
 end NmlVerif.Gen.IncludeShape
-""" % (len(gaps), test_src, lean, "true" if sh else "false")
+""" % (len(gaps), test_src, lean, "true" if sh else "false", "true" if LAST_RESTORES else "false")
 
 
 def regenerate(repo, out_path):
